@@ -25,6 +25,7 @@ type Env struct {
 	triggers  *[]string // candidate e-matching patterns collected under a quantifier
 	binderInvs *[]string // type invariants of the values read under the binder (guards of the quantified body)
 	bound     map[string]bool
+	ownBound  map[string]bool // the variables of the innermost binder (for its own patterns)
 	ghostOverride map[string]string // call-log ghosts bound by the caller (higher-order contracts)
 	byRef     map[string]types.Type // captured variables: the name denotes the content of the cell
 	frameArrs []string // arrays the function under this contract may write (for unchangedOutside)
@@ -227,7 +228,7 @@ func (fc *FnCtx) eval(env *Env, e *Expr) (Val, error) {
 		switch t := x.Typ.Underlying().(type) {
 		case *types.Slice:
 			ref := embDyn("(sarr "+x.T+")", i.T, ti.sizeOf(t.Elem()))
-			if env.triggers != nil && env.mentionsBound(i.T) {
+			if env.triggers != nil && env.mentionsOwnBound(i.T) {
 				*env.triggers = append(*env.triggers, ref)
 			}
 			v := fc.evalLoad(env, Val{T: ref}, t.Elem(), "cx_idx")
@@ -255,11 +256,16 @@ func (fc *FnCtx) eval(env *Env, e *Expr) (Val, error) {
 		n.triggers = &trig
 		n.binderInvs = &invs
 		n.bound = map[string]bool{}
+		n.ownBound = map[string]bool{}
+		for b := range env.bound {
+			n.bound[b] = true // an enclosing binder's variables are bound here too
+		}
 		for _, v := range strings.Split(e.Name, ",") {
 			fc.q.fresh++
 			bv := fmt.Sprintf("q_%s_%d", v, fc.q.fresh)
 			n.vars[v] = Val{T: bv, Typ: intT}
 			n.bound[bv] = true
+			n.ownBound[bv] = true
 			decl = append(decl, "("+bv+" Int)")
 		}
 		body, err := fc.eval(&n, e.X)
@@ -272,10 +278,12 @@ func (fc *FnCtx) eval(env *Env, e *Expr) (Val, error) {
 			// one single-term pattern per distinct indexed read
 			seen := map[string]bool{}
 			var pats []string
-			for _, t := range trig {
-				if !seen[t] {
-					seen[t] = true
-					pats = append(pats, ":pattern ("+t+")")
+			for _, t0 := range trig {
+				for _, t := range fc.patternAlternatives(t0) {
+					if !seen[t] {
+						seen[t] = true
+						pats = append(pats, ":pattern ("+t+")")
+					}
 				}
 			}
 			bt = "(! " + bt + " " + strings.Join(pats, " ") + ")"
@@ -287,6 +295,15 @@ func (fc *FnCtx) eval(env *Env, e *Expr) (Val, error) {
 		return Val{}, fmt.Errorf("method calls are not allowed in contracts (%s)", e.Name)
 	}
 	return Val{}, fmt.Errorf("cannot evaluate %s", e.Op)
+}
+
+func (env *Env) mentionsOwnBound(t string) bool {
+	for b := range env.ownBound {
+		if strings.Contains(t, b) {
+			return true
+		}
+	}
+	return false
 }
 
 func (env *Env) mentionsBound(t string) bool {
@@ -307,7 +324,7 @@ func (fc *FnCtx) gvarGet(st *State, name string) string {
 }
 
 func (fc *FnCtx) evalLoad(env *Env, addr Val, t types.Type, hint string) Val {
-	if env.noInv {
+	if env.noInv && env.mentionsBound(addr.T) {
 		v := fc.loadAt(env.cur, addr, t)
 		// under a binder the value cannot be named by a constant: its type invariant is stated for the whole array version instead
 		if env.binderInvs != nil && v.SV == nil && addr.Local == nil {
@@ -471,7 +488,7 @@ func (fc *FnCtx) selectField(env *Env, x Val, name string) (Val, error) {
 		svst := cur.SV.st
 		cur = fc.fieldOfStruct(cur.SV, t, idx)
 		cur.Typ = ft
-		if cur.SV == nil && svst != nil && !env.noInv && needsInv(ti.sortOf(ft), ft) {
+		if cur.SV == nil && svst != nil && (!env.noInv || !env.mentionsBound(cur.T)) && needsInv(ti.sortOf(ft), ft) {
 			c := fc.q.freshConst("cx_"+sanitize(name), ti.sortOf(ft))
 			fc.q.assert(implies(env.cur.reach, eq(c, cur.T)))
 			fc.typeInvB(env.cur, c, ft, refinedBound(svst, ti.fieldArray(t, idx), cur.T))
@@ -1007,4 +1024,163 @@ func onlyFreshStores(n, o string, pre *State) bool {
 		n = parts[1]
 	}
 	return true
+}
+
+// compileFrame turns an assumed frame clause unchangedOutside(args...) into the definition of the arrays themselves:
+// for every array in arrs whose current version (in env.cur) differs from its version in env.pre, the current version is
+// replaced by  lambda r. if r existed in pre and lies outside the argument allocations then pre[r] else cur[r].
+// This says exactly what the clause says, without a quantifier for the solver to instantiate. It returns false (and
+// changes nothing) when an argument is not of a form that can be evaluated independently of the arrays being defined.
+func (fc *FnCtx) compileFrame(env *Env, e *Expr, arrs []string) bool {
+	if e.Op != "call" || e.Name != "unchangedOutside" {
+		return false
+	}
+	var bases []string
+	var mapArgs []*Expr
+	preEnv := *env
+	preEnv.cur = env.pre
+	for _, a := range e.Args {
+		x, err := fc.eval(env, a)
+		if err != nil {
+			return false
+		}
+		if x.Typ != nil {
+			if _, isMap := x.Typ.Underlying().(*types.Map); isMap {
+				mapArgs = append(mapArgs, a)
+				continue
+			}
+		}
+		// the argument must not depend on the arrays that are about to be defined: it has to denote the same term
+		// in the state before
+		if y, err := fc.eval(&preEnv, a); err != nil || y.T != x.T {
+			return false
+		}
+		switch fc.vsort(x) {
+		case sSlice:
+			bases = append(bases, "(rbase (sarr "+x.T+"))")
+		case sRef:
+			bases = append(bases, "(rbase "+x.T+")")
+		default:
+			return false
+		}
+	}
+	define := func(a string, bs []string) {
+		o, n := env.pre.get(a), env.cur.get(a)
+		if o == n || onlyFreshStores(n, o, env.pre) {
+			return
+		}
+		var out []string
+		for _, b := range bs {
+			out = append(out, fmt.Sprintf("(not (= (rbase yr) %s))", b))
+		}
+		out = append(out, fmt.Sprintf("(<= (rbase yr) %s)", env.pre.alloc()))
+		nv := fc.q.define(a+"@fr", fc.g.arrSort[a], fmt.Sprintf("(lambda ((yr Ref)) (ite %s (select %s yr) (select %s yr)))", and(out...), o, n))
+		env.cur.heap[a] = nv
+		fc.usesLambda()
+	}
+	sort.Strings(arrs)
+	for _, a := range arrs {
+		if _, ok := fc.g.arrSort[a]; ok && !strings.HasPrefix(a, "M_") {
+			define(a, bases)
+		}
+	}
+	// map arguments are read from the arrays just defined
+	var mapBases []string
+	for _, a := range mapArgs {
+		x, err := fc.eval(env, a)
+		if err != nil || x.Typ == nil {
+			return true // non-map arrays are done; the map arrays stay unconstrained (weaker, still sound)
+		}
+		if _, isMap := x.Typ.Underlying().(*types.Map); !isMap {
+			return true
+		}
+		mapBases = append(mapBases, "(rbase "+x.T+")")
+	}
+	for _, a := range arrs {
+		if _, ok := fc.g.arrSort[a]; ok && strings.HasPrefix(a, "M_") {
+			define(a, mapBases)
+		}
+	}
+	return true
+}
+
+// patternAlternatives: a trigger term that mentions a defined (inlined) array constant cannot be used as a pattern: the
+// solver rewrites a select over a definition by cases or a lambda. The alternatives use the declared array constants
+// the definition is built from instead (the terms the rewritten selects are made of).
+func (fc *FnCtx) patternAlternatives(t string) []string {
+	var defs []string
+	for _, c := range fc.symbolsOf(t) {
+		if _, ok := fc.q.defined[c]; ok && strings.HasPrefix(fc.q.declared[c], "(Array") {
+			defs = append(defs, c)
+		}
+	}
+	if len(defs) == 0 {
+		return []string{t}
+	}
+	alts := []string{t}
+	for _, d := range defs {
+		leaves := fc.constLeaves(d)
+		if len(leaves) == 0 || len(leaves) > 4 {
+			return nil
+		}
+		var next []string
+		for _, a := range alts {
+			for _, l := range leaves {
+				next = append(next, replaceSymbol(a, d, l))
+			}
+		}
+		if len(next) > 8 {
+			return nil
+		}
+		alts = next
+	}
+	return alts
+}
+
+// constLeaves: the declared (not defined) array constants of the same sort that the definition of d is built from.
+func (fc *FnCtx) constLeaves(d string) []string {
+	as := fc.q.declared[d]
+	seen := map[string]bool{}
+	var leaves []string
+	var visit func(c string, depth int)
+	visit = func(c string, depth int) {
+		if seen[c] {
+			return
+		}
+		seen[c] = true
+		body, isDef := fc.q.defined[c]
+		if !isDef {
+			leaves = append(leaves, c)
+			return
+		}
+		if depth > 8 {
+			return
+		}
+		for _, x := range fc.symbolsOf(body) {
+			if fc.q.declared[x] == as {
+				visit(x, depth+1)
+			}
+		}
+	}
+	visit(d, 0)
+	return leaves
+}
+
+func replaceSymbol(t, from, to string) string {
+	var b strings.Builder
+	for i := 0; i < len(t); {
+		if strings.HasPrefix(t[i:], from) {
+			end := i + len(from)
+			startOK := i == 0 || t[i-1] == ' ' || t[i-1] == '('
+			endOK := end == len(t) || t[end] == ' ' || t[end] == ')'
+			if startOK && endOK {
+				b.WriteString(to)
+				i = end
+				continue
+			}
+		}
+		b.WriteByte(t[i])
+		i++
+	}
+	return b.String()
 }
